@@ -12,6 +12,7 @@ From VQ Require Import Glue.Pin_o_vq_mask_proj Glue.Pin_o_rvq_mask_proj.
 From VQ Require Import Model.Strides Proofs.StridesProofs Glue.Pin_inv_view_writes.
 From VQ Require Import Proofs.StridesGeneral.
 From VQ Require Import Proofs.LensWrap.
+From VQ Require Import Glue.MaskGuardsGlue.
 Import ListNotations.
 Open Scope R_scope.
 
@@ -355,3 +356,17 @@ Theorem C09_lens_uint8_positions_ok_in_range :
   forall pos len : Z, (0 <= pos < 256)%Z -> mask_u8_positions pos len = mask_spec pos len.
 Proof. exact (@LensWrap.u8_positions_ok). Qed.
 Print Assumptions C09_lens_uint8_positions_ok_in_range.
+
+Theorem C09_tie_mask_applications_guarded_by_mask_only :
+  forall m : bool,
+       g_vq_zero_padded_input.g_vq_zero_padded_input m = m /\
+       g_vq_mask_output.g_vq_mask_output m = m /\ g_vq_mask_indices.g_vq_mask_indices m = m.
+Proof. exact (@MaskGuardsGlue.vq_mask_guards_are_mask_given). Qed.
+Print Assumptions C09_tie_mask_applications_guarded_by_mask_only.
+
+Theorem C09_tie_vq_mask_application_guard_atoms :
+  g_vq_zero_padded_input.g_vq_zero_padded_input_atoms = ["exists_mask"] /\
+       g_vq_mask_output.g_vq_mask_output_atoms = ["exists_mask"] /\
+       g_vq_mask_indices.g_vq_mask_indices_atoms = ["exists_mask"].
+Proof. exact (@MaskGuardsGlue.vq_mask_guard_atoms). Qed.
+Print Assumptions C09_tie_vq_mask_application_guard_atoms.
